@@ -94,7 +94,7 @@ def build(targets=None, clean=False, jobs=16):
         if clean:
             sh("make clean >/dev/null 2>&1; rm -f model.ml model.mli", cwd=COQ)
         t0 = time.time()
-        rc, out = sh(f"timeout 3000 make -k -j{jobs} 2>&1", cwd=COQ, timeout=3100)
+        rc, out = sh(f"timeout 10000 make -k -j{jobs} 2>&1", cwd=COQ, timeout=10100)
         res.make_log = out
         res.make_s = time.time() - t0
         if rc != 0:
